@@ -151,7 +151,13 @@ def sax_of_last_load(pytags):
         return [], []
     pytags.setdefault('saxtr', []).append(t.text() + ('!' + t.problems[0] if t.problems else ''))
     pytags.setdefault('saxev', []).append('1')
-    return [saxtrace.query(t)], ['saxtr', 'saxev']
+    qs, tags = [saxtrace.query(t)], ['saxtr', 'saxev']
+    tf = saxtrace.last_filter()
+    if tf is not None and t.flt is not None:
+        # a filtered load: the first (indexing) pass too, call by call
+        pytags.setdefault('saxftr', []).append(tf.text())
+        qs.append(saxtrace.query_filter(tf)); tags.append('saxftr')
+    return qs, tags
 
 def try_load(D, **kw):
     try:
